@@ -21,7 +21,7 @@ CHECKS = {
     "C04": ("other", "contract-based deductive verification with the ufunc as an uninterpreted function + bounded numpy-per-row stand-in",
             "Proved for every ufunc at once: operand classification, operand order, shape guard (refusal iff row lengths differ), result assembly, dtype handed to the column broadcast, operands not written; _raw_broadcast proved. numpy's result dtype table and the dtype matrix are bounded.", "0, 11/C04"),
     "C05": ("other", "contract of _reduce against the assumed reduceat contract + wrapper dispatch + bounded numpy-per-row stand-in",
-            "Proved for all row-length vectors: _reduce (trailing-empty-row trimming, reduceat index bounds, identity for empty rows, keepdims, axis=None) for representatives add / maximum / logical_and with the fold uninterpreted; the reduction wrapper and named reductions' dispatch. argmax/argmin, mean and dtype matrix are bounded.", "0, 11/C05"),
+            "Proved for all row-length vectors: _reduce (trailing-empty-row trimming, reduceat index bounds, identity for empty rows, keepdims, axis=None) for representatives add / maximum / logical_and with the fold uninterpreted; the reduction wrapper and named reductions' dispatch; argmax / argmin (_arg_extremum: first column equal to the row extremum, 0 for rows without one; np.unique and nonzero contracts). mean and the dtype matrix are bounded.", "0, 11/C05"),
     "C06": ("other", "contracts over the abstract rows for view receivers + materialisation frame + bounded derived-vs-fresh comparison",
             "Proved: row subset of views, column-step compounding, integer column on strided views, materialisation (rows preserved, fresh buffer, source not written), lazy __getitem__ dispatch. Representation independence end-to-end (every probe on a newly derived array vs a fresh one) is bounded.", "0, 11/C06"),
     "C07": ("other", "contracts (prefix-sum telescoping, shifted-prefix-sum lemma) + bounded numpy-per-row stand-in",
@@ -29,7 +29,7 @@ CHECKS = {
     "C08": ("other", "contracts on structural functions + bounded stand-in",
             "Proved: concatenate(axis=0) for 2 and 3 operands, zeros/ones/empty_like, where, nonzero, ragged_slice window arithmetic, unravel_multi_index, _raw_broadcast (mask broadcast). concatenate(axis=1), padded matrix, subset are bounded.", "0, 11/C08"),
     "C09": ("other", "contracts (col_counts by three inductions, dtype dispatch) + bounded stand-in with dtype extremes",
-            "Proved: col_counts[j] = number of rows longer than j, for all row-length vectors; sum(axis=0) accumulator / dtype / index dispatch; get_column_values. Column-sum values and mean are bounded.", "0, 11/C09"),
+            "Proved: col_counts[j] = number of rows longer than j, for all row-length vectors; sum(axis=0) accumulator / dtype / index dispatch; the column-sum VALUES of integer arrays (result[k] = sum of the k-th cells of the rows that have one, two inductions over the add.at accumulation, integers mathematical); get_column_values. Float / bool column sums, mean(axis=0) are bounded.", "0, 11/C09"),
     "C10": ("other", "two-state frame contracts on read-only operations + bounded differential histories",
             "Proved: 13 read-only operations on fresh receivers and 5 on lazily selected ones write no pre-existing buffer and preserve the rows; the buffer-dependence obligation on lazily selected receivers is refuted and is the recorded known finding. The history relation itself is bounded.", "0, 11/C10"),
     "C11": ("other", "contracts around the bucket structure + bounded Python-dict stand-in",
